@@ -279,6 +279,38 @@ theorem C20_random_access {l : Ref} {h : Handle} {k : Nat} {m : Mode} {p : Nat} 
     rw [hback] at this
     simpa using this
 
+/-- **Append mode.**  A File opened "a" on an existing file and then moved anywhere by sseek (any origin, any offset
+    that is not negative): every swrite lands at the end of the file — what was there is untouched, the chunks follow
+    in order — and stell afterwards is the length of the file. -/
+theorem C20_append_mode (l : Ref) (k : Nat) (hk : Regular k) (c0 : List Byte) (hf : lookup k l.files = some c0)
+    (off : Int) (wh : Whence) (t : Nat)
+    (ht : (wh = .set ∧ off = t) ∨ (wh = .cur ∧ (c0.length : Int) + off = t) ∨ (wh = .end_ ∧ (c0.length : Int) + off = t))
+    (cs : List (List Byte)) (hne : cs.flatten ≠ []) :
+    let o1 := fileOpen refIO Cfg.fixed l none k .a
+    let sk := fileSeek refIO o1.lib o1.f off wh
+    let w := writeAll refIO sk.lib o1.f cs
+    let t1 := fileTell refIO w.1 o1.f
+    o1.out = .ok () ∧ sk.out = .ok () ∧ w.2 = writeSpec cs ∧ w.1.content k = c0 ++ cs.flatten ∧
+      t1.out = .ok (c0 ++ cs.flatten).length := by
+  intro o1 sk w t1
+  obtain ⟨a1, a2⟩ := fopen_a l k hk c0 hf
+  rcases ho : Ref.fopen l k .a with ⟨l2, r⟩
+  rw [ho] at a1 a2
+  simp only at a1 a2
+  subst a1
+  have e1 : o1 = ⟨l2, some l.next, .ok (), [.fopen k .a (some l.next)]⟩ := fileOpen_none_eq refIO Cfg.fixed l k .a l2 l.next ho
+  have hof : o1.f = some l.next := by rw [e1]
+  have hol : o1.lib = l2 := by rw [e1]
+  obtain ⟨s1, _, s3⟩ := fileSeek_at a2 hk off wh t ht
+  have hsk : sk = fileSeek refIO l2 (some l.next) off wh := by show fileSeek refIO o1.lib o1.f off wh = _; rw [hof, hol]
+  rw [← hsk] at s1 s3
+  obtain ⟨w1, p', w2, w3⟩ := writeAll_append s3 hk cs
+  have hw : w = writeAll refIO sk.lib (some l.next) cs := by show writeAll refIO sk.lib o1.f cs = _; rw [hof]
+  rw [← hw] at w1 w2
+  refine ⟨by rw [e1], s1, w1, w2.content, ?_⟩
+  show (fileTell refIO w.1 o1.f).out = _
+  rw [hof, (fileTell_at w2).1, w3 hne]
+
 /-- **Text written with print_to arrives byte for byte.**  Under the reference stdio: open "w"/"w+", any sequence of
     print_to calls whose formats produced any fragments (each fragment is one File_Format_To = vfprintf), reopen
     "r"/"r+", read in any chunking: every print_to returns the number of characters it wrote, the file holds exactly the
